@@ -1,17 +1,294 @@
 package main
 
 import (
+	"context"
 	"encoding/json"
+	"fmt"
+	"io"
+	"os"
+	"path/filepath"
 	"runtime/debug"
+	"sort"
+	"strings"
 )
 
 // C03: the TC runner (one template tree, rendered with several data values on fresh engines, one after the other
 // in this process) with a small goroutine stack limit: a render that recurses without end (what a broken frame
 // or block discipline of mixin calls produces) ends the process at once instead of after filling 1 GB of stack.
 // The generator runs every case in a process of its own and observes a dead process as class "crash".
+//
+// A case may carry SIBLINGS ("sibs"): other template files (in the rendered template's directory, below it,
+// above it, in other directories) that the same full load compiles.  They are never rendered.  Such a case
+// is loaded and rendered in TWO directory layouts: one in which the rendered template's entry is listed before
+// every sibling's entry by the Readdir(-1) call compileDir makes, and one in which it is listed after all of
+// them; the results are reported one layout after the other (layout 0: all data values, layout 1: all data
+// values), so the observation has 2 x len(datas) results.  What the page renders must not depend on which
+// other files were loaded with it, nor on the order in which the loader came across them.
+type c03Case struct {
+	tcCase
+	Sibs map[string]string `json:"sibs"` // hex name -> hex AST json
+}
+
+// where the rendered template stood in the listings of one layout
+type c03Listing struct {
+	Entries    int  `json:"entries"` // sibling entries compared with the rendered template's entry
+	TBeforeAll bool `json:"t_before_all"`
+	TAfterAll  bool `json:"t_after_all"`
+}
+
+type c03Obs struct {
+	tcObs
+	Layouts []c03Listing `json:"layouts,omitempty"`
+	Dropped int          `json:"dropped,omitempty"` // siblings that do not load when they are alone: left out
+}
+
+// c03LoadsAlone: does a file of this content, the only one of its engine, load?
+func c03LoadsAlone(content string) bool {
+	dir, err := os.MkdirTemp("", "pvC03s")
+	if err != nil {
+		return false
+	}
+	defer os.RemoveAll(dir)
+	if err := writeTree(dir, map[string]string{"template/page/x.ast.json": content}); err != nil {
+		return false
+	}
+	cls, _ := safeLoad(newEngine(dir, false, 0, nil), "")
+	return cls == clsOK
+}
+
+func c03ReadNames(dir string) ([]string, error) {
+	f, err := os.Open(dir)
+	if err != nil {
+		return nil, err
+	}
+	defer f.Close()
+	infos, err := f.Readdir(-1) // the call compileDir makes
+	if err != nil {
+		return nil, err
+	}
+	names := make([]string, len(infos))
+	for i, fi := range infos {
+		names[i] = fi.Name()
+	}
+	return names, nil
+}
+
+func c03Index(names []string, n string) int {
+	for i, x := range names {
+		if x == n {
+			return i
+		}
+	}
+	return -1
+}
+
+// entry of the template name `parts` in the directory at depth i of its path
+func c03Entry(parts []string, i int) string {
+	if i == len(parts)-1 {
+		return parts[i] + ".ast.json"
+	}
+	return parts[i]
+}
+
+// c03WriteLayout writes the rendered template tname and the siblings below dir/template/page so that tname's
+// entry is listed before (tFirst) or after every sibling's entry in the directory they share.  The listing order
+// is the file system's (hash of the names on ext4, creation order on tmpfs, ...): the files are created in the
+// order that does it on creation-ordered file systems, then every sibling entry that is still on the wrong side
+// is renamed (a sibling is never rendered: its name means nothing) until the read-back listing is as wanted.
+func c03WriteLayout(dir string, tname, tcontent string, sibs map[string]string, tFirst bool) (c03Listing, error) {
+	var ls c03Listing
+	page := filepath.Join(dir, "template", "page")
+	write := func(name, content string) error {
+		return writeTree(dir, map[string]string{"template/page/" + name + ".ast.json": content})
+	}
+	snames := make([]string, 0, len(sibs))
+	for n := range sibs {
+		snames = append(snames, n)
+	}
+	sort.Strings(snames)
+	if err := os.MkdirAll(page, 0o755); err != nil {
+		return ls, err
+	}
+	if !tFirst { // creation-ordered listings show the newest entry first
+		if err := write(tname, tcontent); err != nil {
+			return ls, err
+		}
+	}
+	for _, n := range snames {
+		if err := write(n, sibs[n]); err != nil {
+			return ls, err
+		}
+	}
+	if tFirst {
+		if err := write(tname, tcontent); err != nil {
+			return ls, err
+		}
+	}
+	// the entries to compare: for every sibling the first path component in which it differs from the
+	// rendered template, in their common parent directory
+	tparts := strings.Split(tname, "/")
+	type ent struct {
+		parent, name string
+		depth        int
+	}
+	seen := map[ent]bool{}
+	var ents []ent
+	for _, n := range snames {
+		sparts := strings.Split(n, "/")
+		i := 0
+		for i < len(sparts)-1 && i < len(tparts)-1 && sparts[i] == tparts[i] {
+			i++
+		}
+		te, se := c03Entry(tparts, i), c03Entry(sparts, i)
+		if te == se {
+			return ls, fmt.Errorf("sibling %q collides with the rendered template", n)
+		}
+		e := ent{filepath.Join(append([]string{page}, sparts[:i]...)...), se, i}
+		if !seen[e] {
+			seen[e] = true
+			ents = append(ents, e)
+		}
+	}
+	ls.Entries = len(ents)
+	ls.TBeforeAll, ls.TAfterAll = tFirst, !tFirst
+	for _, e := range ents {
+		te := c03Entry(tparts, e.depth)
+		cur := e.name
+		good := false
+		for try := 0; try < 32; try++ {
+			l, err := c03ReadNames(e.parent)
+			if err != nil {
+				return ls, err
+			}
+			ti, si := c03Index(l, te), c03Index(l, cur)
+			if ti < 0 || si < 0 {
+				return ls, fmt.Errorf("layout: entry %q or %q is not listed in %s", te, cur, e.parent)
+			}
+			if (ti < si) == tFirst {
+				good = true
+				break
+			}
+			var next string
+			if strings.HasSuffix(e.name, ".ast.json") {
+				next = fmt.Sprintf("%s_%d.ast.json", strings.TrimSuffix(e.name, ".ast.json"), try)
+			} else {
+				next = fmt.Sprintf("%s_%d", e.name, try)
+			}
+			if err := os.Rename(filepath.Join(e.parent, cur), filepath.Join(e.parent, next)); err != nil {
+				return ls, err
+			}
+			cur = next
+		}
+		if !good {
+			ls.TBeforeAll, ls.TAfterAll = false, false
+		}
+	}
+	return ls, nil
+}
+
+// c03RunLayouts: production mode, full load, every data value on a fresh engine, in both layouts.  The readers
+// are read only after all renders have been made (as in TC).
+func c03RunLayouts(c c03Case) (o c03Obs, err error) {
+	name := unhx(c.Render)
+	tcontent, ok := "", false
+	sibs := map[string]string{}
+	for p, a := range c.Files {
+		if unhx(p) == name {
+			tcontent, ok = unhx(a), true
+		} else {
+			sibs[unhx(p)] = unhx(a)
+		}
+	}
+	if !ok {
+		return o, fmt.Errorf("rendered template %q is not among the files", name)
+	}
+	for p, a := range c.Sibs {
+		sibs[unhx(p)] = unhx(a)
+	}
+	for n, content := range sibs {
+		if !c03LoadsAlone(content) {
+			delete(sibs, n)
+			o.Dropped++
+		}
+	}
+	m := &o.Prod
+	var dirs []string
+	defer func() {
+		for _, d := range dirs {
+			os.RemoveAll(d)
+		}
+	}()
+	var pending []io.Reader
+	defer func() {
+		for i, rd := range pending {
+			if rd != nil && i < len(m.Res) && m.Res[i].Class == clsOK {
+				b, _ := io.ReadAll(rd)
+				m.Res[i].Out = hx(string(b))
+			}
+		}
+	}()
+	for _, tFirst := range []bool{true, false} {
+		dir, err := os.MkdirTemp("", "pvC03")
+		if err != nil {
+			return o, err
+		}
+		dirs = append(dirs, dir)
+		ls, err := c03WriteLayout(dir, name, tcontent, sibs, tFirst)
+		if err != nil {
+			return o, err
+		}
+		o.Layouts = append(o.Layouts, ls)
+		for _, raw := range c.Datas {
+			data, err := buildData(raw)
+			if err != nil {
+				return o, err
+			}
+			e := newEngine(dir, false, 0, nil)
+			m.Load, m.LoadMsg = safeLoad(e, "")
+			if m.Load != clsOK {
+				return o, nil
+			}
+			if tFirst {
+				m.Code = hx(e.TemplateCode[name])
+			}
+			res, rd := renderKeep(e, context.Background(), name, data)
+			m.Res = append(m.Res, res)
+			pending = append(pending, rd)
+		}
+	}
+	return o, nil
+}
+
 func init() {
 	runners["C03"] = func(in json.RawMessage) (interface{}, error) {
 		debug.SetMaxStack(64 << 20)
-		return runners["TC"](in)
+		var cases []c03Case
+		if err := json.Unmarshal(in, &cases); err != nil {
+			return nil, err
+		}
+		out := make([]c03Obs, len(cases))
+		for i, c := range cases {
+			if len(c.Sibs) > 0 {
+				o, err := c03RunLayouts(c)
+				if err != nil {
+					return nil, fmt.Errorf("case %d: %w", i, err)
+				}
+				out[i] = o
+				continue
+			}
+			p, err := runTCMode(c.tcCase, false)
+			if err != nil {
+				return nil, fmt.Errorf("case %d: %w", i, err)
+			}
+			out[i].Prod = p
+			if c.Debug {
+				d, err := runTCMode(c.tcCase, true)
+				if err != nil {
+					return nil, fmt.Errorf("case %d (debug): %w", i, err)
+				}
+				out[i].Debug = &d
+			}
+		}
+		return out, nil
 	}
 }
